@@ -366,6 +366,17 @@ func RunPlans(f *Factory, plans io.Reader, trace io.Writer, names []string, shar
 				continue
 			}
 
+			if c.Op == "wrap" && len(c.Flag) > 0 {
+				i++
+				if err := tenc.Encode(s.WrapWith(pl.Name, i, c.Flag[0], names)); err != nil {
+					return n, err
+				}
+
+				n++
+
+				continue
+			}
+
 			if ur != nil && ur.Intn(3) == 0 {
 				// the same call in an unclean spelling: the properties define it to behave as its Clean() form
 				c.P = Respell(ur, c.P)
